@@ -71,6 +71,8 @@ pub fn catalogue() -> Vec<Deviation> {
         dev!("disable_help_subcommand", |c| { c.set(Setting::DisableHelpSubcommand); }),
         dev!("version_propagated", |c| { c.version = Some("1.0".into()); c.set(Setting::PropagateVersion); }),
         dev!("version_disabled_flag", |c| { c.version = Some("1.0".into()); c.set(Setting::DisableVersionFlag); }),
+        dev!("deferred_ignore_errors", |c| { c.deferred_setting = Some(Setting::IgnoreErrors); }),
+        dev!("deferred_infer_subcommands", |c| { c.deferred_setting = Some(Setting::InferSubcommands); }),
         dev!("no_binary_name", |c| { c.set(Setting::NoBinaryName); }),
         // ---- option shape
         dev!("opt_num_args_0_1", |c| { o(c).num_args = Some((0, Some(1))); }),
@@ -110,6 +112,7 @@ pub fn catalogue() -> Vec<Deviation> {
         dev!("opt_overrides_a", |c| { o(c).overrides.push("a".into()); }),
         dev!("opt_overrides_self", |c| { o(c).overrides.push("o".into()); }),
         dev!("opt_parser_u8", |c| { o(c).parser = Vp::U8; }),
+        dev!("opt_parser_u8_new", |c| { o(c).parser = Vp::U8New; }),
         dev!("opt_possible_values", |c| {
             o(c).parser = Vp::Pv(vec![
                 PvSpec { name: "v".into(), ..Default::default() },
@@ -179,7 +182,14 @@ pub fn catalogue() -> Vec<Deviation> {
             sub(c).args.push(r);
         }),
         dev!("sub_hidden", |c| { sub(c).hide = true; }),
+        dev!("touch_pos", |c| { c.touch.push("p".into()); }),
+        dev!("touch_flag", |c| { c.touch.push("a".into()); }),
         dev!("sub_positional", |c| { sub(c).args.push(ArgSpec::pos("sp", 1)); }),
+        dev!("sub_positional_hyphen", |c| {
+            let mut p = ArgSpec::pos("sp", 1);
+            p.allow_hyphen_values = true;
+            sub(c).args.push(p);
+        }),
         dev!("second_sub_shared_prefix", |c| {
             let mut s = CmdSpec::new("sum");
             s.short_flag = Some('Q');
@@ -221,6 +231,10 @@ pub fn alphabet(c: &CmdSpec) -> Vec<Vec<u8>> {
         add(s.as_bytes());
     }
     let has_dev = |f: &dyn Fn(&CmdSpec) -> bool| f(c);
+    if has_dev(&|c| c.args.iter().any(|a| matches!(a.parser, Vp::U8 | Vp::U8New | Vp::I64))) {
+        add(b"--opt=300");
+        add(b"--opt=7");
+    }
     if has_dev(&|c| c.args.iter().any(|a| a.terminator.is_some())) {
         add(b";");
     }
@@ -255,6 +269,7 @@ pub fn alphabet(c: &CmdSpec) -> Vec<Vec<u8>> {
             add(b"-S");
             add(b"-Sx");
             add(b"-aS");
+            add(b"-aSx");
         }
         if s.long_flag.is_some() {
             add(b"--sync");
